@@ -24,6 +24,11 @@ package model
 //@   ensures result == cat("bundles/", repo + "/")
 //@ func GetArchivePathToBundleFileList
 //@   ensures result == cat("bundles/", repo, "/", bundleID, "/", "bundle-files-", dec(index), ".yaml")
+// the listing prefix of a repository's labels ends with the separator after the repository name (so that the
+// labels of "ocean" are not those of "ocean-2024"), followed by the label prefix as it was given
+//@ func GetArchivePathPrefixToLabels
+//@   ensures [all-labels-of-the-repo] len(prefixes) == 0 ==> result == cat("labels/", repo + "/")
+//@   ensures [labels-starting-with] len(prefixes) == 1 ==> result == cat("labels/", repo + "/" + prefixes[0])
 //@ func GetArchivePathToLabel
 //@   call GetArchivePathPrefixToLabels#1 assert [of-repo] $repo == repo && len($prefixes) == 0
 //@   call GetArchivePathPrefixToLabels#1 bind pfx = $ret0
